@@ -205,6 +205,23 @@ theorem from_total_errors (vs : List Int) :
     (TestResults.fromErrors vs).results.length = vs.length := by
   simp [TestResults.fromErrors, ResSpec.total, sumFold_eq_sum, Function.comp_def]
 
+/-- float results (where the order of summation is observable through rounding): the results are kept in the
+    order given … -/
+theorem from_floats_results (vs : List UInt64) : (TestResults.fromFloats vs).results = vs := rfl
+
+/-- … and the total is their sum taken in exactly that order: one more result at the end is added to the sum of
+    all the others.  Float addition is opaque to the kernel, so this holds for any interpretation of it - it is a
+    statement about the order of summation only. -/
+theorem float_total_snoc (x : UInt64) (xs : List UInt64) (y : UInt64) :
+    (TestResults.fromFloats (x :: (xs ++ [y]))).total =
+      ((xs.foldl (fun a b => a + Float.ofBits b) (Float.ofBits x)) + Float.ofBits y).toBits := by
+  simp [TestResults.fromFloats, sumFoldFloat, List.foldl_append]
+
+/-- the fold equation: the total of `x :: xs` is the left fold of float addition over `xs` starting at `x` -/
+theorem float_total_is_left_fold (x : UInt64) (xs : List UInt64) :
+    (TestResults.fromFloats (x :: xs)).total =
+      (xs.foldl (fun a b => a + Float.ofBits b) (Float.ofBits x)).toBits := rfl
+
 /-- no cases: no results and a zero total -/
 theorem from_empty : TestResults.fromScores ([] : List Int) = ⟨[], ⟨0⟩⟩ ∧
     TestResults.fromErrors ([] : List Int) = ⟨[], ⟨0⟩⟩ := ⟨rfl, rfl⟩
